@@ -232,8 +232,33 @@ def print_assumptions(prop, theorems, scratch):
     return res, out
 
 
+_PRIMS = None
+
+
+def primitive_names():
+    """Names declared with `Primitive` in the standard library's PrimFloat / PrimInt63 (kernel-implemented
+    constants; Print Assumptions lists them, they are not axioms)."""
+    global _PRIMS
+    if _PRIMS is None:
+        _PRIMS = set()
+        for f in ("/usr/lib/ocaml/coq/theories/Floats/PrimFloat.v", "/usr/lib/ocaml/coq/theories/Numbers/Cyclic/Int63/PrimInt63.v",
+                  "/usr/lib/ocaml/coq/theories/Numbers/Cyclic/Int63/Uint63.v", "/usr/lib/ocaml/coq/theories/Array/PArray.v"):
+            try:
+                for line in open(f):
+                    m = re.match(r"\s*Primitive\s+([A-Za-z0-9_']+)", line)
+                    if m:
+                        _PRIMS.add(m.group(1))
+            except OSError:
+                pass
+    return _PRIMS
+
+
 def axiom_allowed(a):
-    return a in ALLOWED_AXIOMS or a.startswith(PRIMITIVE_PREFIXES)
+    if a in ALLOWED_AXIOMS:
+        return True
+    base = a.split(".")[-1]
+    qual = a.split(".")[0] if "." in a else ""
+    return base in primitive_names() and qual in ("", "PrimFloat", "PrimInt63", "Uint63", "PArray", "Floats", "Coq")
 
 
 # ---------------------------------------------------------------- evaluating the model inside Coq
